@@ -472,6 +472,11 @@ func serverForwardResponses(
 				return fmt.Errorf("failed to flush HTTP response: %w", err)
 			}
 
+			// An informational (1xx) response is followed by the final response to the same request.
+			if resp.StatusCode < http.StatusOK {
+				continue
+			}
+
 			// Stop forwarding if either the client or server indicates that the connection should be closed.
 			//
 			// RFC 9112 section 9.6 says:
@@ -483,10 +488,8 @@ func serverForwardResponses(
 				return errPayloadAfterFinalResponse
 			}
 
-			// If the response is final (not 1xx informational), we are done.
-			if resp.StatusCode >= http.StatusOK {
-				break
-			}
+			// The response is final, we are done.
+			break
 		}
 	}
 }
